@@ -20,6 +20,7 @@ def run(cmd, **kw):
     return subprocess.run(cmd, cwd=wt, env=env, stdout=subprocess.PIPE, stderr=subprocess.STDOUT, text=True, **kw)
 run(["git", "checkout", "--", "."])
 res = {"property": pid, "change": n, "test": test, "features": features}
+os.makedirs(os.path.dirname(demo_dst), exist_ok=True)
 shutil.copy(f"{out}/demo.rs", demo_dst)
 cmd = ["cargo", "test", "--offline", "-p", pkg, "--test", test] + (["--features", features] if features else [])
 r0 = run(cmd)
